@@ -37,6 +37,7 @@ fn build(flags: &[(&str, &str)], setup: &str, with_handlers: bool) -> Context {
         match (*k, *v) {
             ("comma", "1") => c.set_decimal_separator_style(DecimalSeparatorStyle::Comma),
             ("cf", "1") => c.use_coulomb_and_farad(),
+            ("term", "1") => c.set_output_mode_terminal(),
             ("rng", "1") if with_handlers => c.set_random_u32_fn(rng),
             ("xr", "1") if with_handlers => c.set_exchange_rate_handler_v1(Xr(false)),
             ("xr", "2") if with_handlers => c.set_exchange_rate_handler_v1(Xr(true)),
@@ -63,7 +64,7 @@ fn probe(c: &Context) -> String {
     // variables are a hash map: order-independent digest = sorted probes of a fixed name set instead of raw bytes
     let int = Counting::never();
     let mut out = vec![format!("n={}", img.len())];
-    for p in ["_", "ans", "a", "b", "f", "x", "1,5 + 1", "1.5 + 1", "1 C + 1 coulomb", "1 florp to kg", "1 kilozib to zib", "f 2", "a + 1"] {
+    for p in ["_", "ans", "a", "b", "f", "x", "1,5 + 1", "1.5 + 1", "1 C + 1 coulomb", "1 florp to kg", "1 kilozib to zib", "f 2", "a + 1", "d2"] {
         let mut cc = c.clone();
         let r = guarded(|| fend_core::evaluate_with_interrupt(p, &mut cc, &int));
         out.push(match r {
